@@ -963,6 +963,16 @@ func (l *Lowerer) lowerGlobalVar(v *parser.VarDecl) error {
 	var init *ir.ConstantHandle
 	var initExpr *ir.ExpressionHandle
 	if v.Init != nil {
+		if scalarKind, bits, ok := l.evalNegatedLiteral(v.Init); ok {
+			// `= -5i`, `= -2.5`: a literal of the negated value, as for a plain literal below
+			// (a Unary global expression is not evaluated by the text back ends).
+			scalarKind, bits = l.coerceScalarToType(scalarKind, bits, typeHandle)
+			sv := ir.ScalarValue{Bits: bits, Kind: scalarKind}
+			if litVal := l.scalarValueToLiteralWithType(sv, typeHandle); litVal != nil {
+				h := l.addGlobalExpr(ir.Literal{Value: litVal})
+				initExpr = &h
+			}
+		}
 		if lit, ok := v.Init.(*parser.Literal); ok {
 			// Scalar literal init → GlobalExpression directly (no intermediate Constant).
 			scalarKind, bits, litErr := l.evalLiteral(lit)
@@ -16364,6 +16374,13 @@ func (l *Lowerer) buildGlobalExprFromAST(
 
 	case *parser.UnaryExpr:
 		if e.Op == parser.TokenMinus {
+			if int(expectedType) < len(l.module.Types) {
+				if scalar, ok := l.module.Types[expectedType].Inner.(ir.ScalarType); ok {
+					if h, ok := l.buildGlobalScalarFromAST(e, scalar, addExpr); ok {
+						return h, true
+					}
+				}
+			}
 			h, ok := l.buildGlobalExprFromAST(e.Operand, expectedType, addExpr)
 			if !ok {
 				return 0, false
@@ -16401,6 +16418,31 @@ func (l *Lowerer) buildGlobalExprFromAST(
 	default:
 		return 0, false
 	}
+}
+
+// evalNegatedLiteral evaluates `-literal` for a signed-integer or (f32 / abstract) float
+// literal: the kind and bits evalLiteral would give for the negated value.
+func (l *Lowerer) evalNegatedLiteral(expr parser.Expr) (ir.ScalarKind, uint64, bool) {
+	u, ok := expr.(*parser.UnaryExpr)
+	if !ok || u.Op != parser.TokenMinus {
+		return 0, 0, false
+	}
+	lit, ok := u.Operand.(*parser.Literal)
+	if !ok || strings.HasSuffix(lit.Value, "h") || strings.HasSuffix(lit.Value, "lf") ||
+		strings.HasSuffix(lit.Value, "li") || strings.HasSuffix(lit.Value, "lu") {
+		return 0, 0, false
+	}
+	kind, bits, err := l.evalLiteral(lit)
+	if err != nil {
+		return 0, 0, false
+	}
+	switch kind {
+	case ir.ScalarSint:
+		return kind, uint64(-int64(bits)), true
+	case ir.ScalarFloat:
+		return kind, bits ^ 0x80000000, true // f32 bits
+	}
+	return 0, 0, false
 }
 
 // constructedVectorSize returns the size of the vector a constructor expression
@@ -16447,6 +16489,12 @@ func (l *Lowerer) buildGlobalScalarFromAST(
 	case *parser.UnaryExpr:
 		if e.Op != parser.TokenMinus {
 			return 0, false
+		}
+		if kind, bits, ok := l.evalNegatedLiteral(e); ok {
+			kind, bits = coerceScalarToScalar(kind, bits, scalar)
+			if lit := scalarValueToLiteralWithScalar(ir.ScalarValue{Bits: bits, Kind: kind}, scalar); lit != nil {
+				return addExpr(ir.Literal{Value: lit}), true
+			}
 		}
 		h, ok := l.buildGlobalScalarFromAST(e.Operand, scalar, addExpr)
 		if !ok {
